@@ -868,4 +868,126 @@ theorem spaced_render {k : Key} (hk : k ∈ allKeys) {R : Str} (hR : Body k (low
   rw [← spaced_flag d hd (body_clean hR) (body_nonspace hR)]
   exact this
 
+/-! ### Names followed by white space and ` not` -/
+
+/-- `not` occurs nowhere in the text. -/
+def noNot : Str → Bool
+  | [] => true
+  | c :: t => !sNot.isPrefixOf (c :: t) && noNot t
+
+theorem space_ne {z : Nat} (h : isSpace z = true) : z ≠ 110 ∧ z ≠ 111 ∧ z ≠ 116 := by
+  simp only [isSpace, Bool.or_eq_true, beq_iff_eq, Bool.and_eq_true, decide_eq_true_eq] at h
+  omega
+
+theorem isPrefix_sNot_app (t' : Str) (z0 : Nat) (Z' : Str) (hz : isSpace z0 = true) :
+    sNot.isPrefixOf (t' ++ z0 :: Z') = sNot.isPrefixOf t' := by
+  obtain ⟨h0, h1, h2⟩ := space_ne hz
+  rcases t' with _ | ⟨a, _ | ⟨b, _ | ⟨c, r⟩⟩⟩ <;> simp [sNot, List.isPrefixOf, h0.symm, h1.symm, h2.symm]
+
+theorem noNot_head {t : Str} (h : noNot t = true) : sNot.isPrefixOf t = false := by
+  cases t with
+  | nil => rfl
+  | cons d t' =>
+    simp only [noNot, Bool.and_eq_true, Bool.not_eq_true'] at h
+    exact h.1
+
+theorem searchNot1_noNot (n : Str) (hn : noNot n = true) (z0 : Nat) (Z' : Str) (hz : isSpace z0 = true) :
+    searchNot1 (n ++ z0 :: Z') = searchNot1 (z0 :: Z') := by
+  induction n with
+  | nil => rfl
+  | cons c t ih =>
+    have h1 := noNot_head hn
+    simp only [noNot, Bool.and_eq_true, Bool.not_eq_true'] at hn
+    have h2 := isPrefix_sNot_app (c :: t) z0 Z' hz
+    rw [h1] at h2
+    rw [List.cons_append, searchNot1, ← List.cons_append, h2, ih hn.2]
+    rfl
+
+theorem raSpNot_noNot (n : Str) (hn : noNot n = true) (z0 : Nat) (Z' : Str) (hz : isSpace z0 = true) :
+    replaceAll sSpNot [] 0 (n ++ z0 :: Z') = n ++ replaceAll sSpNot [] 0 (z0 :: Z') := by
+  induction n with
+  | nil => rfl
+  | cons c t ih =>
+    simp only [noNot, Bool.and_eq_true, Bool.not_eq_true'] at hn
+    have hp : sSpNot.isPrefixOf (c :: (t ++ z0 :: Z')) = false := by
+      have : sSpNot.isPrefixOf (c :: (t ++ z0 :: Z')) = ((32 == c) && sNot.isPrefixOf (t ++ z0 :: Z')) := by
+        simp [sSpNot, sNot, List.isPrefixOf]
+      rw [this, isPrefix_sNot_app t z0 Z' hz, noNot_head hn.2]
+      simp
+    rw [List.cons_append]
+    simp only [replaceAll, hp, Bool.false_eq_true, if_false]
+    rw [ih hn.2]
+    rfl
+
+def nameOk (p : Codes × Key) : Bool :=
+  tight p.1 && noNot p.1 && p.1.head? != some 33 && finish names p.1 true == some (p.2.codes, true)
+
+theorem aliases_nameOk : aliases.all nameOk = true := by decide +kernel
+
+/-- `name<W>␣not`: any white space before the literal space of ` not`. -/
+theorem name_not_suffix_spaced (n : Codes) (k : Key) (h : (n, k) ∈ aliases) {w ws ws' wN W : Str}
+    (hw : lower w = n) (hN : lower wN = sNot) (hws : ws.all isSpace = true) (hws' : ws'.all isSpace = true)
+    (hW : W.all isSpace = true) :
+    normalize names (ws ++ w ++ W ++ 32 :: wN ++ ws') = some (k.codes, true) := by
+  have ok := List.all_eq_true.mp aliases_nameOk (n, k) h
+  simp only [nameOk, Bool.and_eq_true, beq_iff_eq, bne_iff_ne] at ok
+  obtain ⟨⟨⟨htight, hnn⟩, hbang⟩, hfin⟩ := ok
+  have hWn : ∀ c ∈ W, c ≠ 110 := fun c hc => (clean_ne (ws_clean hW) c hc).1
+  -- the stripped lower-cased text
+  have e0 : strip (lower (ws ++ w ++ W ++ 32 :: wN ++ ws')) = n ++ (W ++ sSpNot) := by
+    have hX : tight (n ++ (W ++ sSpNot)) = true := by
+      unfold tight at htight ⊢
+      simp only [Bool.and_eq_true] at htight ⊢
+      refine ⟨?_, ?_⟩
+      · cases n with
+        | nil => simp at htight
+        | cons a r => simpa using htight.1
+      · simp [sSpNot, List.getLast?_append, isSpace]
+    have : lower (ws ++ w ++ W ++ 32 :: wN ++ ws') = ws ++ (n ++ (W ++ sSpNot)) ++ ws' := by
+      simp [lower_append, lower_cons, lower_ws hws, lower_ws hws', lower_ws hW, hN, hw, sNot, sSpNot, lowerC]
+    rw [this, strip_tight hws hws' hX]
+  -- the text after the name starts with a white-space character
+  obtain ⟨z0, Z', hZ, hz⟩ : ∃ z0 Z', W ++ sSpNot = z0 :: Z' ∧ isSpace z0 = true := by
+    cases W with
+    | nil => exact ⟨32, [110, 111, 116], rfl, rfl⟩
+    | cons a W' =>
+      simp only [List.all_cons, Bool.and_eq_true] at hW
+      exact ⟨a, W' ++ sSpNot, rfl, hW.1⟩
+  have hneg : negation (n ++ (W ++ sSpNot)) = (n ++ W, true) := by
+    have hb : ∀ t, n ++ (W ++ sSpNot) ≠ 33 :: t := by
+      intro t e
+      cases n with
+      | nil => simp [tight] at htight
+      | cons a r =>
+        simp only [List.cons_append, List.cons.injEq] at e
+        exact hbang (by simp [e.1])
+    have s1 : searchNot1 (n ++ (W ++ sSpNot)) = false := by
+      rw [hZ, searchNot1_noNot n hnn z0 Z' hz, ← hZ]
+      exact searchNot1_tail W hWn
+    have s2 : searchNot2 (n ++ (W ++ sSpNot)) = true := by
+      have := searchNot2_mid (n ++ W) [] (c := 32) rfl
+      simpa [sSpNot, sNot, List.append_assoc] using this
+    have r2 : replaceAll sSpNot [] 0 (n ++ (W ++ sSpNot)) = n ++ W := by
+      rw [hZ, raSpNot_noNot n hnn z0 Z' hz, ← hZ, raSpNot_tail W hWn]
+    unfold negation
+    split
+    · rename_i t e; exact absurd e (hb t)
+    · rw [s1, s2, r2]; rfl
+  have hfinW : finish names (n ++ W) true = finish names n true := by
+    obtain ⟨ys, d, hyd, hd⟩ := tight_last htight
+    rw [finish_eq, finish_eq]
+    have e1 : strip (n ++ W) = n := by
+      have := strip_tight (ws := []) (ws' := W) rfl hW htight
+      simpa using this
+    have e2 : strip n = n := by
+      have := strip_tight (ws := []) (ws' := []) rfl rfl htight
+      simpa using this
+    rw [e1, e2]
+  rw [normalize_eq, e0]
+  unfold normalizeLow
+  rw [hneg]
+  simp only
+  rw [hfinW]
+  exact hfin
+
 end Paroxy.NP
